@@ -117,7 +117,7 @@ package evm
 //@ func (ctrler *EVMCtrler) ValidateTrx(ctx)
 //@   implements (ITrxHandler_TrxEVMHandler).ValidateTrx
 //@   objinv ctrler != nil && ctrler.ethChainConfig != nil
-//@   requires wf_ctx(ctx)
+//@   requires wf_ctx(ctx) && ctx.Tx.Type == 6
 //@   assumes noalias(ctx)
 //@   modifies lastigas
 //@   allocates big.Int
